@@ -35,7 +35,11 @@ func (e *Engine) newVC(k string, mode string) (*fnVC, error) {
 		}
 	}
 	uses := false
-	for _, cl := range append(append([]Clause{}, con.Requires...), con.Ensures...) {
+	cls := append(append([]Clause{}, con.Requires...), con.Ensures...)
+	for _, ac := range con.AtCall {
+		cls = append(cls, ac...)
+	}
+	for _, cl := range cls {
 		if strings.Contains(cl.Text, "rvver(") {
 			uses = true
 		}
